@@ -74,10 +74,15 @@ struct Handler {
     id: String,
     generation: i64,
     seen: Log,
+    fail_init: bool,
 }
 impl Handler {
     fn next(&self) -> Box<dyn GenEventHandler> {
-        Box::new(Handler { id: self.id.clone(), generation: self.generation + 1, seen: self.seen.clone() })
+        Box::new(Handler { id: self.id.clone(), generation: self.generation + 1, seen: self.seen.clone(), fail_init: false })
+    }
+    /// a replacement whose init fails
+    fn next_failing(&self) -> Box<dyn GenEventHandler> {
+        Box::new(Handler { id: self.id.clone(), generation: self.generation + 1, seen: self.seen.clone(), fail_init: true })
     }
     fn my_act(&self, ev: &OwnedTerm) -> String {
         // {N, [{h1, Act}, {h2, Act}]}
@@ -100,7 +105,7 @@ impl Handler {
 }
 impl GenEventHandler for Handler {
     fn init<'a>(&'a mut self, _args: OwnedTerm) -> Pin<Box<dyn Future<Output = edp_node::Result<()>> + Send + 'a>> {
-        Box::pin(async move { Ok(()) })
+        Box::pin(async move { if self.fail_init { Err(edp_node::Error::InvalidMessage("scripted init failure".into())) } else { Ok(()) } })
     }
     fn handle_event<'a>(&'a mut self, event: OwnedTerm) -> Pin<Box<dyn Future<Output = edp_node::Result<EventResult>> + Send + 'a>> {
         Box::pin(async move {
@@ -109,6 +114,7 @@ impl GenEventHandler for Handler {
             match self.my_act(&event).as_str() {
                 "remove" => Ok(EventResult::Remove),
                 "swap" => Ok(EventResult::SwapHandler(self.next(), a("swap_args"))),
+                "swapfail" => Ok(EventResult::SwapHandler(self.next_failing(), a("swap_args"))),
                 "fail" => Err(edp_node::Error::InvalidMessage("scripted failure".into())),
                 _ => Ok(EventResult::Ok),
             }
@@ -122,6 +128,7 @@ impl GenEventHandler for Handler {
             match mode.as_str() {
                 "remove" => Ok(GenEventCallResult::Remove(reply)),
                 "swap" => Ok(GenEventCallResult::SwapHandler(self.next(), a("swap_args"), reply)),
+                "swapfail" => Ok(GenEventCallResult::SwapHandler(self.next_failing(), a("swap_args"), reply)),
                 "fail" => Err(edp_node::Error::InvalidMessage("scripted failure".into())),
                 _ => Ok(GenEventCallResult::Reply(reply)),
             }
@@ -207,7 +214,7 @@ async fn run_one(node: &Arc<Node>, sc: &Value, serial: &mut u32) -> Value {
     let mut initial: Vec<String> = sc["initial"].as_array().map(|x| x.iter().filter_map(|h| h.as_str().map(String::from)).collect()).unwrap_or_default();
     initial.sort();
     for h in &initial {
-        let _ = mgr.add_handler(Box::new(Handler { id: h.clone(), generation: 1, seen: seen.clone() }), a("args")).await;
+        let _ = mgr.add_handler(Box::new(Handler { id: h.clone(), generation: 1, seen: seen.clone(), fail_init: false }), a("args")).await;
     }
     let ge = match node.spawn(mgr).await {
         Ok(p) => p,
